@@ -343,6 +343,16 @@ fn run_case(raw: &RawKey, c: &Case, rep: &mut Report) -> Result<(), (String, Str
     if snap_a.tree != snap_b.tree {
         return Err((format!("C11/tree-differs/{:?}", c.popt), format!("parent-based tree {} != full-read tree {}", snap_a.tree, snap_b.tree)));
     }
+    // every pack the parent-based backup wrote is listed by an index file (also when the snapshot
+    // itself is skipped as unchanged: files that had to be read again were stored for a reason)
+    {
+        let listed: std::collections::BTreeSet<String> = vkit::decode::index_packs(raw, &after_a).map_err(|e| ("C11/index/decode".to_string(), e))?.into_iter().map(|p| p.pack_id).collect();
+        for (id, _) in after_a.list(FileType::Pack) {
+            if before.get(FileType::Pack, &id).is_none() && !listed.contains(&vkit::decode::hex_id(&id)) {
+                return Err(("C11/new-pack-not-indexed".into(), format!("the backup wrote pack {} but no index file lists it", &vkit::decode::hex_id(&id)[..8])));
+            }
+        }
+    }
     // the new snapshot reads back to the source (also with a damaged parent: files are re-read)
     let skipped = snap_a.id.is_null();
     // "unchanged" means the same tree id as the (first) parent, metadata such as inodes included
